@@ -111,6 +111,24 @@ def templates(cfg):
         if name == "rename_hidden_name":
             seq = ["drop_a", "mut_name"]
         out.append(Template(f"c02.t.{name}", T_I3, chain(*[STEPS[s] for s in seq]), props=("C02",)))
+    # expression objects stored in a variable and used in several verb calls
+    def reuse_case(p, t):
+        shrink = p.when(p.C.a > 2).then(p.C.a - 2).otherwise(p.C.a)
+        return t >> p.mutate(a=shrink) >> p.mutate(a=shrink) >> p.filter(shrink > 0)
+
+    out.append(Template("c02.t.reuse_case_expr", T_I3, reuse_case, props=("C02",)))
+
+    def reuse_after_swap(p, t):
+        e = p.when(p.C.a > 0).then(p.C.b).otherwise(p.C.c)
+        return t >> p.mutate(x=e) >> p.rename({"a": "b", "b": "a"}) >> p.mutate(y=e) >> p.filter(e.is_not_null())
+
+    out.append(Template("c02.t.reuse_case_after_swap", T_I3, reuse_after_swap, props=("C02",)))
+
+    def reuse_arith(p, t):
+        e = p.C.a * 2 + t.b
+        return t >> p.mutate(a=e) >> p.mutate(d=e) >> p.select(p.C.d, p.C.a) >> p.mutate(a=e)
+
+    out.append(Template("c02.t.reuse_arith_expr", T_I3, reuse_arith, props=("C02",)))
     L = 2 if cfg.tier == "quick" else 3
     keys = [k for k in STEPS if k not in ("slice", "slice_off", "sel_names", "slice_past", "slice_big", "slice1")]
     seqs = []
